@@ -78,6 +78,9 @@ macro_rules! bin_tt {
             "rr" => &a $op &b,
             "av" => { let mut t = a; t $opa b; t }
             "ar" => { let mut t = a; t $opa &b; t }
+            // the SAME object on both sides (the caller passes the same register twice): `&x * &x`, and `x *= &x`
+            // through a copy of the same value
+            "aa" => { assert!(a.hi().to_bits() == b.hi().to_bits() && a.lo().to_bits() == b.lo().to_bits(), "harness: aa needs the same operand twice"); &a $op &a }
             _ => panic!("harness: bad spelling"),
         }
     }};
